@@ -2,7 +2,7 @@
 import json, os, re
 from lib import fw
 
-MODULES = ["SunriseVerif.Props.C10", "SunriseVerif.Props.C10Kernel", "SunriseVerif.Props.C10Accrual", "SunriseVerif.Witness.C10", "SunriseVerif.Props.C10Refine"]
+MODULES = ["SunriseVerif.Props.C10", "SunriseVerif.Props.C10Kernel", "SunriseVerif.Props.C10Accrual", "SunriseVerif.Witness.C10", "SunriseVerif.Props.C10Refine", "SunriseVerif.Props.C10RefineRun"]
 PROVED_PREDS = None  # every Spec/C10 statement is evaluated; (T) ones are test-level evidence only
 
 
